@@ -186,6 +186,20 @@ def mgrHandle (O : Orders) (line : String) : String :=
       let cp := keys.all fun k => complete (seqLog log k) (mkOf log) (initOf fp fq (fc ++ cr) k) (projSeq log k tr)
       s!"safe={b2s sf} complete={b2s cp}"
     | _, _, _, _, _, _, _ => "bad-op"
+  | op :: p0 :: q0 :: c0 :: fc :: cr :: log :: acts =>
+    -- `first:<n>`: the storage holds no common state; `n` log entries have happened before the
+    -- client starts, the server's state at that moment is what it starts from
+    match dropPrefix op "first:", p0.toInt?, q0.toInt?, parseList parsePair "," c0, parseStored fc, parseCreated cr,
+        parseList parseEntry "," log, acts.mapM parseAction with
+    | some pre, some p0, some q0, some c0, some (fc, late), some (cr, late'), some log, some acts =>
+      match pre.toNat? with
+      | some pre =>
+        let w : World := { log := log, p0 := p0, q0 := q0, c0 := c0, emitted := min pre log.length, late := late ++ late',
+                           persisted := fc, cr := cr }
+        let m := (Mgr.start O w w.serverPts w.serverQts fc true).runActions O acts
+        showTrace m.trace ++ " | " ++ checksOf O log p0 q0 c0 w.serverPts w.serverQts (fc ++ cr) m
+      | none => "bad-op"
+    | _, _, _, _, _, _, _, _ => "bad-op"
   | _ => "bad-op"
 
 end TdModel.C02Core
